@@ -136,6 +136,14 @@ fn c09_configs(tier: Tier) -> Vec<c09::C09> {
                 f.preset_start = true;
                 v.push(c09::C09 { cfg: f, callers: permitted + 2, max_ticks: 2, max_drops: 0, prepared: true, straggler: false, nested: 0, grid: 10, max_force: 0 });
             }
+            if time_based && permitted == 1 {
+                // three permitted trials, a half-open period longer than the (10 ms) time window:
+                // the first trial's record has aged out of the window while two more are running
+                let mut f = cfg.clone();
+                f.permitted = 3;
+                f.window_ms = 10;
+                v.push(c09::C09 { cfg: f, callers: 4, max_ticks: 2, max_drops: 0, prepared: true, straggler: false, nested: 0, grid: 10, max_force: 0 });
+            }
             // the breaker converted with with_fallback(..): callers beyond the limit are answered by
             // the fallback and must not reach the inner service either
             {
